@@ -223,5 +223,6 @@ def many_prefix_root(n=12):
 
 SH = b"s:http|"  # a one-stem prefix (scheme-wide catch-all webentity)
 LONGP = Ab + L.long_stem(149)  # a page with a 3-block stem below Ab
+LONGQ = Ab + L.long_stem(222, b"q")  # exactly three blocks: the last tail chunk is full
 
 PROBES = [A, Ax, Axy, Ab, Az, Aw, Awx, S, Sx, Bb, C1] + L.ABSENT
